@@ -21,7 +21,7 @@ ASSUMPTIONS = ['firmware V2 block-creation layout: entries of (type:u8, id:u16);
                'for table variables the stored-type nibble may be the fetch type or the table type (the firmware ignores it)']
 REQUIRED = ['mon.configs_accepted', 'mon.configs_rejected', 'mon.create_messages', 'mon.append_messages',
             'mon.data_packets_decoded', 'mon.flag_checks', 'mon.readd_checks', 'mon.synclogger_samples',
-            'mon.rejected_then_readded_on_newer_firmware',
+            'mon.rejected_then_readded_on_newer_firmware', 'mon.delivered_samples_rechecked_later',
             'mon.boundary_26', 'mon.device_errors_injected']
 DESC_TIMEOUT = 900
 
@@ -154,7 +154,8 @@ def run(desc, ctx):
                     lc.add_variable(sp[1], sp[2])
                 else:
                     lc.add_memory(sp[1], sp[2], sp[3], sp[4])
-            lc.data_received_cb.add_callback(lambda ts, data, conf: ob['data'].append((ts, dict(data), conf)))
+            # keep the delivered object itself next to a copy taken at delivery time
+            lc.data_received_cb.add_callback(lambda ts, data, conf: ob['data'].append((ts, dict(data), conf, data)))
             lc.added_cb.add_callback(lambda *a: ob['added_cb'].append(a))
             lc.started_cb.add_callback(lambda *a: ob['started_cb'].append(a))
             lc.error_cb.add_callback(lambda *a: ob['error_cb'].append(a))
@@ -250,10 +251,13 @@ def run(desc, ctx):
                 cf.link.inject(h, d, 0.0)
                 s.sleep(0.01)
                 if desc['hist'] == 1 and blk2 is not None and blk2.started:
-                    vals2 = [_val(rnd, op[0]) for op in blk2.ops]
-                    h, d = dev.log_data_packet(lc2.id, vals2, ts ^ 1)
-                    ob['sync']['sent'].append((ts ^ 1, vals2, [op[0] for op in blk2.ops]))
-                    cf.link.inject(h, d, 0.0)
+                    # a burst: the consumer may lag behind, several samples wait in the SyncLogger queue
+                    for b in range(1 if i % 2 else 3):
+                        vals2 = [_val(rnd, op[0]) for op in blk2.ops]
+                        ts2 = (ts ^ 1) if b == 0 else rnd.getrandbits(24)
+                        h, d = dev.log_data_packet(lc2.id, vals2, ts2)
+                        ob['sync']['sent'].append((ts2, vals2, [op[0] for op in blk2.ops]))
+                        cf.link.inject(h, d, 0.0)
                     s.sleep(0.01)
         # ---- history tail
         if desc['hist'] == 2:
@@ -369,11 +373,17 @@ def run(desc, ctx):
     # ---- data decoding
     sent = ob.get('sent', [])
     got = [d for d in ob['data'] if d[2] is lc]
+    for d in ob['data']:
+        ctx.count('mon.delivered_samples_rechecked_later')
+        if d[3] != d[1]:
+            V('log:delivered-sample-changed-after-delivery', {'at_delivery': {k: repr(v) for k, v in d[1].items()},
+                                                             'later': {k: repr(v) for k, v in d[3].items()}})
+            break
     if len(got) != len(sent):
         V('log:data-callback-count-differs', {'sent': len(sent), 'got': len(got)})
     else:
         names = [sp[1] for sp in specs]
-        for (ts, vals, types), (gts, gdata, _) in zip(sent, got):
+        for (ts, vals, types), (gts, gdata, _, _ref) in zip(sent, got):
             ctx.count('mon.data_packets_decoded')
             ok = gts == ts and set(gdata) == set(names)
             if ok:
